@@ -333,7 +333,9 @@ func (b *termBuilder) term(e ast.Expr) *Term {
 			return mk("nil", "")
 		case *types.Var:
 			if o.Pkg() != nil && o.Parent() == o.Pkg().Scope() {
-				return mk("const", objQual(o)) // package-level variable: named by identity
+				t := mk("const", objQual(o)) // package-level variable: named by identity
+				t.Obj = o
+				return t
 			}
 			if t, ok := b.sub[o]; ok {
 				return t
@@ -377,7 +379,11 @@ func (b *termBuilder) term(e ast.Expr) *Term {
 		}
 		// qualified identifier
 		switch o := b.info.Uses[x.Sel].(type) {
-		case *types.Var, *types.Func, *types.Const:
+		case *types.Var:
+			t := mk("const", objQual(o))
+			t.Obj = o
+			return t
+		case *types.Func, *types.Const:
 			return mk("const", objQual(o))
 		case *types.TypeName:
 			return mk("type", typeStr(o.Type()))
